@@ -124,12 +124,14 @@ def concrete_batch(items, no_cython=True, timeout=900):
 
 
 def load_known(prop):
-    p = os.path.join(VERIF, 'known_findings.json')
-    if not os.path.exists(p):
-        return []
-    with open(p) as f:
-        data = json.load(f)
-    return [e for e in data.get('findings', []) if e.get('property') == prop]
+    """known findings: /verif/known_findings/<prop>.json (committed by hand, never written at run time)"""
+    out = []
+    for p in (os.path.join(VERIF, 'known_findings', f'{prop}.json'), ):
+        if os.path.exists(p):
+            with open(p) as f:
+                data = json.load(f)
+            out += [e for e in data.get('findings', []) if e.get('property', prop) == prop]
+    return out
 
 
 def match_known(known, key):
